@@ -52,6 +52,8 @@ class Machine:
         self.descr: list[str] = []
         self.frame_fail: str | None = None
         self.before_observe = None   # hook run after the operation, before liveness is observed
+        self.detached_toks: set[int] = set()
+        self.lr_fail: tuple[str, str] | None = None   # (signature, message) of the live-registered oracle
 
     # ---- installation
     def __enter__(self):
@@ -123,6 +125,19 @@ class Machine:
         gc.collect()
         reg = sorted(((k, self.tok(v)) for k, v in list(NODE_REGISTRY.items())), key=lambda e: e[0])
         live = sorted(t for t, r in self.refs.items() if r() is not None)
+        # the property itself on the real objects: a live node that has not itself been detached /
+        # replaced away is returned (the identical object) by lookup under its id
+        if self.lr_fail is None:
+            for t in live:
+                if t in self.detached_toks:
+                    continue
+                o = self.refs[t]()
+                if o is not None and NODE_REGISTRY.get(o.id) is not o:
+                    kind = self.descr_kind(self._last_descr)
+                    self.lr_fail = (f"live-not-registered|op={kind}|ds={self.digest_size}",
+                                    f"live, never detached node #{t} is not returned by lookup under its id "
+                                    f"after `{self._last_descr}` (ID_DIGEST_SIZE={self.digest_size})")
+                del o
         gres = []
         for cname, k, strict in gets:
             r = zoo._BY_NAME[cname].get(k, strict=strict) if cname != "ASTNode" else ASTNode.get(k, strict=strict)
@@ -139,7 +154,17 @@ class Machine:
             out.append((rng.choice(["Leaf", "Leaf2", "Expr", "Tup", "Bin", "ASTNode", "Un"]), k, rng.random() < 0.5))
         return out
 
+    @staticmethod
+    def descr_kind(d: str) -> str:
+        for k, pat in (("asobj", "as_obj"), ("duplicate", ".duplicate()"), ("dcreplace", "dataclasses.replace"),
+                       ("replace-raises", "raises"), ("replace", ".replace("), ("detach_self", ".detach_self()"),
+                       ("detach", ".detach()"), ("del", "del v"), ("construct", "(...)")):
+            if pat in d:
+                return k
+        return "alias"
+
     def _push(self, op, out, descr):
+        self._last_descr = descr
         gets = self._gets()
         self.ops.append([A("op"), op, [A("gets")] + [[c, k, s] for c, k, s in gets]])
         self.obs.append(self._observe(out, gets))
@@ -347,6 +372,8 @@ class Machine:
             return
         del before
         self._replace_oracle(x, n, kw, True, was_reg)
+        if was_reg:
+            self.detached_toks.add(tx)
         op = [A("replace"), v, tx, False, [A("kids")] + kids, self._fresh_sexp()]
         self.vars[v] = n
         t = self.tok(n)
@@ -361,9 +388,15 @@ class Machine:
         tx = self.tok(x)
         if only_self:
             res = x.detach_self()
+            if res:
+                self.detached_toks.add(tx)
             del x, live
             return ([A("detachself"), tx], [A("ok"), None, bool(res)], f"#{tx}.detach_self() -> {res}")
         else:
+            for o in [x] + [c for c, *_ in zoo.positions(x)]:
+                if NODE_REGISTRY.get(o.id) is o:
+                    self.detached_toks.add(self.tok(o))
+            del o
             x.detach()
             del x, live
             return ([A("detach"), tx], [A("ok"), None, None], f"#{tx}.detach()")
